@@ -1272,11 +1272,17 @@ impl TensorStore {
                         #[allow(clippy::cast_possible_truncation)]
                         // Sparse vector positions fit in u32
                         let positions_u32: Vec<u32> = pos_ids.iter().map(|&p| p as u32).collect();
-                        TensorValue::Sparse(SparseVector::from_parts(
-                            dimension,
-                            positions_u32,
-                            values,
-                        ))
+                        if positions_u32.len() != values.len() {
+                            return Err(SnapshotError::SerializationError(format!(
+                                "sparse field {field_name}: {} positions but {} values",
+                                positions_u32.len(),
+                                values.len()
+                            )));
+                        }
+                        TensorValue::Sparse(
+                            SparseVector::try_from_parts(dimension, positions_u32, values)
+                                .map_err(|e| SnapshotError::SerializationError(e.to_string()))?,
+                        )
                     },
                     CompressedValue::VectorTT { .. } | CompressedValue::IdList(_) => {
                         let v = decompress_vector(&value)
